@@ -88,6 +88,10 @@ func gather(reg *prometheus.Registry) (*scrape, error) {
 	if err != nil {
 		return nil, err
 	}
+	return scrapeOf(fams), nil
+}
+
+func scrapeOf(fams []*dto.MetricFamily) *scrape {
 	sc := &scrape{in: map[string]float64{}, out: map[string]float64{}, fail: map[string]float64{}, hist: map[string]histVal{}}
 	for _, f := range fams {
 		for _, m := range f.GetMetric() {
@@ -121,11 +125,14 @@ func gather(reg *prometheus.Registry) (*scrape, error) {
 				}
 				sc.hist[k] = v
 			default:
+				if strings.HasPrefix(f.GetName(), "promhttp_") {
+					continue // the exporter's own handler instrumentation (NewHandler registers it in the same registry)
+				}
 				sc.other = append(sc.other, "unexpected family "+f.GetName())
 			}
 		}
 	}
-	return sc, nil
+	return sc
 }
 
 func intStr(f float64) string {
@@ -236,7 +243,7 @@ func opLine(sq sequence) string {
 var methods = []string{"GET", "POST", "PUT", "DELETE", "", "PÄTCH"}
 var urls = []string{"http://localhost:8080/", "http://localhost:8080/a?b=c&d=e", "https://example.com/x y", "", "http://[::1]/ü", "http://h/\"q\"\\"}
 var codes = []uint16{200, 200, 200, 0, 201, 302, 404, 500, 503, 65535}
-var messages = []string{"connection refused", "EOF", "Get \"http://x\": context deadline exceeded", "500 Internal Server Error", "ü ✓", "x"}
+var messages = []string{"connection refused", "EOF", "Get \"http://127.0.0.1:1/some/long/path?with=query&and=more\": dial tcp 127.0.0.1:1: connect: connection refused (Client.Timeout exceeded while awaiting headers) — " + strings.Repeat("retry ", 30), "Get \"http://x\": context deadline exceeded", "500 Internal Server Error", "ü ✓", "x"}
 var boundsNs = []int64{5000000, 10000000, 25000000, 50000000, 100000000, 250000000, 500000000, 1000000000, 2500000000, 5000000000, 10000000000}
 
 func genSize(r *kit.Rng, max int) int {
@@ -274,9 +281,22 @@ func genSequence(r *kit.Rng, n int, s *kit.Summary) []res {
 			{"GE", "T" + base, 200}, {"GETh", base[1:], 200}, {"GET", base + "40", 4}, {"GET", base + "4", 404}, {"GET", base, 4044}, {"GET", base, 404}, {"GET", base + "4", 4}}
 		s.Count("labels:colliding_family")
 	}
+	// byte counts: mixed / all zero (a counter that is only created by a non-zero Add stays absent) /
+	// zero for some label sets only
+	bytesMode := r.Pick(5)
+	s.Count("bytes_mode:" + []string{"mixed", "mixed", "mixed", "all_zero", "zero_for_status_0_and_404"}[bytesMode])
+	longURL := ""
+	if r.Chance(0.05) {
+		longURL = "http://long.test/" + strings.Repeat("segment/", 150) // ≈ 1.2 KiB label value
+		s.Count("labels:long_url")
+	}
 	out := make([]res, n)
+	nErrOK, nNoErrBad, nErrZero := 0, 0, 0
 	for i := range out {
 		x := res{Method: methods[r.Pick(nm)], URL: urls[r.Pick(nu)], Code: codes[r.Pick(nc)]}
+		if longURL != "" && r.Chance(0.2) {
+			x.URL = longURL
+		}
 		if collide && r.Chance(0.7) {
 			l := family[r.Pick(len(family))]
 			x.Method, x.URL, x.Code = l.m, l.u, l.c
@@ -287,6 +307,9 @@ func genSequence(r *kit.Rng, n int, s *kit.Summary) []res {
 			x.BIn, x.BOut = uint64(r.Range(0, 1<<38)), uint64(r.Range(0, 1<<38))
 		default:
 			x.BIn, x.BOut = uint64(r.Range(0, 100000)), uint64(r.Range(0, 4096))
+		}
+		if bytesMode == 3 || (bytesMode == 4 && (x.Code == 0 || x.Code == 404)) {
+			x.BIn, x.BOut = 0, 0
 		}
 		switch latMode {
 		case 0: // around the bucket bounds
@@ -323,6 +346,23 @@ func genSequence(r *kit.Rng, n int, s *kit.Summary) []res {
 			x.Err = messages[r.Pick(ne)]
 		}
 		out[i] = x
+		switch {
+		case x.Err != "" && x.Code >= 200 && x.Code < 400:
+			nErrOK++
+		case x.Err == "" && (x.Code == 0 || x.Code >= 400):
+			nNoErrBad++
+		case x.Err != "" && x.Code == 0:
+			nErrZero++
+		}
+	}
+	if nErrOK > 0 {
+		s.Count("errors:with_success_status")
+	}
+	if nNoErrBad > 0 {
+		s.Count("errors:none_with_failure_status")
+	}
+	if nErrZero > 0 {
+		s.Count("errors:with_status_0")
 	}
 	s.Count("err_mode:" + []string{"none", "by_code", "half", "all"}[errMode])
 	s.Count("lat_mode:" + []string{"bucket_bounds", "ms_grid", "mixed", "small"}[latMode])
@@ -401,6 +441,15 @@ func oracle(s *kit.Summary, sq sequence, sc *scrape) {
 		}
 		if !okSum {
 			bad("prom_hist_sum", "histogram sum differs from the total seconds for "+k, exact.FloatString(12), fmt.Sprint(h.sum), nil)
+		}
+		// the documented histogram uses the client library's default buckets (seconds)
+		okBounds := len(h.les) == len(prometheus.DefBuckets)
+		for j := 0; okBounds && j < len(h.les); j++ {
+			okBounds = h.les[j] == prometheus.DefBuckets[j]
+		}
+		if !okBounds {
+			bad("prom_hist_bounds", "bucket bounds differ from prometheus.DefBuckets for "+k, fmt.Sprint(prometheus.DefBuckets), fmt.Sprint(h.les), nil)
+			continue
 		}
 		if len(h.cum) != len(boundsNs) {
 			bad("prom_hist_buckets", "unexpected number of buckets for "+k, fmt.Sprint(len(boundsNs)), fmt.Sprint(len(h.cum)), nil)
@@ -501,7 +550,7 @@ func runC20(c *run.Ctx, s *kit.Summary) {
 		s.Sample(map[string]interface{}{"op": "c20.observe", "sequence": sq, "impl": l})
 		check(s, st, sq)
 	}
-	n := c.N(500, 20000)
+	n := c.N(500, 16000)
 	for i := 0; i < n; i++ {
 		size := genSize(r, 10000)
 		sq := sequence{Results: genSequence(r, size, s)}
@@ -529,4 +578,5 @@ func runC20(c *run.Ctx, s *kit.Summary) {
 		flush(false)
 	}
 	flush(true)
+	attackRuns(c, r, s)
 }
